@@ -10,6 +10,7 @@ import (
 	"strings"
 	"sync"
 	"time"
+	"unicode/utf8"
 
 	"verif/harness/internal/fake"
 
@@ -192,6 +193,11 @@ func (c *WSClient) readLoop() {
 		}
 		switch h.OpCode {
 		case ws.OpClose:
+			// RFC 6455 5.5 / 7.4: a control frame carries at most 125 bytes; a close body is empty or a status code
+			// the protocol allows on the wire followed by a reason in valid UTF-8
+			if p := closeFrameProblem(payload); p != "" {
+				c.add(Frame{Raw: fmt.Sprintf("%q", payload), Problem: "close frame: " + p})
+			}
 			c.mu.Lock()
 			c.closed = true
 			c.closeInfo = "close frame"
@@ -271,6 +277,26 @@ func (c *WSClient) Frames() []Frame {
 	c.mu.Lock()
 	defer c.mu.Unlock()
 	return append([]Frame{}, c.frames...)
+}
+
+func closeFrameProblem(payload []byte) string {
+	switch {
+	case len(payload) == 0:
+		return ""
+	case len(payload) > 125:
+		return fmt.Sprintf("control frame with %d bytes of payload", len(payload))
+	case len(payload) == 1:
+		return "body of one byte (no status code)"
+	}
+	code := int(payload[0])<<8 | int(payload[1])
+	ok := (code >= 1000 && code <= 1003) || (code >= 1007 && code <= 1011) || (code >= 3000 && code <= 4999)
+	if !ok {
+		return fmt.Sprintf("status code %d may not appear in a close frame", code)
+	}
+	if !utf8.Valid(payload[2:]) {
+		return fmt.Sprintf("reason is not valid UTF-8 (%d bytes, cut inside a character?)", len(payload)-2)
+	}
+	return ""
 }
 
 // Closed reports whether the server side closed the connection.
